@@ -401,7 +401,11 @@ def run(ck, prog, ctx):
                     if a[0] == "call" and a[1].endswith("::index_mut") and a[3] == host.id:
                         it = host.blocks[a[4]].term
                         taken |= {x for x in comp_in(host, pvl.of_operand(host, it.args[1])) if x.startswith("K")}
-        ck.ob("PAIR", nm + "/takes-both", taken == {"K0", "K1"}, "%s retires %s from `sets` (expected key.0 and key.1)" % (nm, " and ".join("key." + k[1:] for k in sorted(taken)) or "nothing"), where=host.where())
+        if not taken and not any(t_.callee.method == "take" and (t_.callee.impl_self or t_.callee.name or "").find("Option") >= 0 for _, t_ in host.calls()):
+            # no `Option::take` on the set slots at all: the live / retired bookkeeping has another representation (a list of live indices, ..)
+            ck.undecided("PAIR", nm + "/takes-both", "%s does not retire the merged nodes by taking them out of Option slots of `sets`: another bookkeeping of the live nodes, not read by this rule" % nm, where=host.where())
+        else:
+          ck.ob("PAIR", nm + "/takes-both", taken == {"K0", "K1"}, "%s retires %s from `sets` (expected key.0 and key.1)" % (nm, " and ".join("key." + k[1:] for k in sorted(taken)) or "nothing"), where=host.where())
     ck.floor("TABLE", "retain predicates", n_ret, 1, soft=True)
 
     # ---- the caller's distances are stored as they are: no clamp / rescaling between the callback's result and the matrix
@@ -450,6 +454,10 @@ def run(ck, prog, ctx):
             lens = [a for a in c1 if a[0] == "call" and a[1].endswith("::len") and a[3] == host.id]
             lens0 = [a for a in c0 if a[0] == "call" and a[1].endswith("::len") and a[3] == host.id]
             ok_order = "IDX" in k0 and bool(lens) and "IDX" not in k1
+            if not ok_order and "IDX" in k0 and "IDX" not in k1 and not lens and not lens0:
+                # the second component is neither a live index nor a length read here (`self.newest_index()`): not classified
+                ck.undecided("FIELD", nm + "/new-key-order", "%s stores the new distance under (live index, <a value that is not a Vec::len read in this function>): the new index is computed elsewhere" % nm, where=host.where(t.line))
+                continue
             ck.ob("FIELD", nm + "/new-key-order", ok_order, "%s stores the new distance under (%s, %s) - expected (live index, new index): the matrix is keyed (smaller, larger)" % (nm, "live index" if "IDX" in k0 else "new index" if lens0 else "?", "live index" if "IDX" in k1 else "new index" if lens else "?"), where=host.where(t.line))
             src = lens if "IDX" not in k1 else lens0
             if len(src) != 1:
